@@ -182,18 +182,32 @@ inline constexpr int kMovedFrom = -7777;
 
 enum class Kind { copy_move, move_only, copy_only };
 
+// Tag >= 100 selects an over-aligned (32-byte) variant: storage that only honours alignof(int) or alignof(max_align_t)
+// puts such an element at a misaligned address, which every special member checks for
 template <Kind K, int Tag = 0>
-struct TrackedT {
+struct alignas(Tag >= 100 ? 32 : alignof(int)) TrackedT {
     int v;
+
+    void aligned_or_report() const
+    {
+        if constexpr (Tag >= 100) {
+            if (reinterpret_cast<uintptr_t>(this) % 32 != 0 && g_ctx != nullptr && g_ctx->stepClass != 2) {
+                LibPause pause;
+                g_ctx->violation("C02", "memory:misaligned-object", "an over-aligned element lives at " + Registry::where(this) + ", which is not a multiple of its alignment");
+            }
+        }
+    }
 
     TrackedT()
     {
+        aligned_or_report();
         reg().on_construct(this);
         v = 0;
     }
 
     TrackedT(int x) // NOLINT implicit on purpose: containers are fed plain ints
     {
+        aligned_or_report();
         reg().on_construct(this);
         v = x;
     }
@@ -201,6 +215,7 @@ struct TrackedT {
     TrackedT(TrackedT const& o)
         requires(K != Kind::move_only)
     {
+        aligned_or_report();
         reg().need_live(&o, "copy-from-dead");
         reg().on_construct(this);
         ++reg().copies;
@@ -210,6 +225,7 @@ struct TrackedT {
     TrackedT(TrackedT&& o) noexcept
         requires(K != Kind::copy_only)
     {
+        aligned_or_report();
         reg().need_live(&o, "move-from-dead");
         reg().on_construct(this);
         ++reg().moves;
@@ -323,6 +339,7 @@ using Tracked         = TrackedT<Kind::copy_move>;
 using TrackedB        = TrackedT<Kind::copy_move, 1>;
 using TrackedMoveOnly = TrackedT<Kind::move_only>;
 using TrackedCopyOnly = TrackedT<Kind::copy_only>;
+using TrackedOA       = TrackedT<Kind::copy_move, 100>; // alignas(32)
 
 template <typename T>
 inline constexpr bool is_tracked_v = false;
